@@ -1094,17 +1094,10 @@ fn explore(ctx: &Ctx) {
     );
     let depth = ctx.pick(4usize, 12usize);
     let model = Compression { pool };
-    if std::env::var("C07_TIME").is_ok() {
-        let t0 = std::time::Instant::now();
-        let mut c = RegCtx::new();
-        for i in 0..1200 {
-            c = transition(&c, &model.pool[i % 12]).ok().map(|o| o.ctx).unwrap_or(c);
-        }
-        eprintln!("1200 sequential transitions: {:?}", t0.elapsed());
-    }
     let stats = bfs(&model, depth, u64::MAX, ctx);
     let bfs_wall = ctx.elapsed();
-    let histories: u64 = (0..=depth as u32).map(|d| 12u64.pow(d)).sum();
+    // histories of length <= completed depth (all lengths once the frontier is empty)
+    let histories: u64 = (0..=stats.completed_depth.min(depth) as u32).map(|d| 12u64.pow(d)).sum();
     ctx.set(
         "bfs",
         json!({"depth": depth, "completed_depth": stats.completed_depth, "distinct_contexts": stats.states, "transitions": stats.transitions,
